@@ -7,7 +7,6 @@ import (
 	"fmt"
 	"os"
 	"reflect"
-	"regexp"
 	"sort"
 	"sync"
 
@@ -49,7 +48,7 @@ func (e *composerEnv) docJSON(d *CDoc) map[string]interface{} {
 
 	for i, v := range d.Other {
 		if v.T != "abs" {
-			m[fmt.Sprintf("o%d", i+1)] = valJSON(v)
+			m[otherName(i+1)] = valJSON(v)
 		}
 	}
 
@@ -114,6 +113,48 @@ func checkPatchCodec(p patch.Patch) string {
 	return ""
 }
 
+// checkCodecInterleaved serializes every patch first and parses the byte strings afterwards:
+// bytes handed out earlier must still denote their patch after later serializations.
+func checkCodecInterleaved(ps []patch.Patch) string {
+	raws := make([][]byte, len(ps))
+	keep := make([]string, len(ps))
+
+	for i, p := range ps {
+		b, err := p.Bytes()
+		if err != nil {
+			return "Bytes: " + err.Error()
+		}
+
+		raws[i] = b
+		keep[i] = string(b)
+	}
+
+	for i, p := range ps {
+		if string(raws[i]) != keep[i] {
+			return fmt.Sprintf("bytes of patch %d changed after later serializations", i)
+		}
+
+		back, err := patch.FromBytes(raws[i])
+		if err != nil {
+			return fmt.Sprintf("FromBytes of patch %d after later serializations: %v", i, err)
+		}
+
+		a, _ := json.Marshal(p)
+		b, _ := json.Marshal(back)
+
+		var ga, gb interface{}
+
+		_ = json.Unmarshal(a, &ga)
+		_ = json.Unmarshal(b, &gb)
+
+		if !reflect.DeepEqual(ga, gb) {
+			return fmt.Sprintf("patch %d parsed back after later serializations differs", i)
+		}
+	}
+
+	return ""
+}
+
 // projectPatch maps a real patch back to the abstract patch of Composer.tla.
 func (e *composerEnv) projectPatch(p patch.Patch) CPatch {
 	out := CPatch{Ents: []CEnt{}, Ents2: []CEnt{}, IDs: []int{}, Ops: []CJOp{}}
@@ -154,11 +195,7 @@ func (e *composerEnv) projectPatch(p patch.Patch) CPatch {
 		l, _ := g["uris"].([]interface{})
 		for _, u := range l {
 			s, _ := u.(string)
-			if m := reURI.FindStringSubmatch(s); m != nil {
-				out.IDs = append(out.IDs, atoi(m[1]))
-			} else {
-				out.IDs = append(out.IDs, -1)
-			}
+			out.IDs = append(out.IDs, uriID(s))
 		}
 	case "ietf-json-patch":
 		l, _ := g["patches"].([]interface{})
@@ -168,8 +205,8 @@ func (e *composerEnv) projectPatch(p patch.Patch) CPatch {
 			j.Op, _ = m["op"].(string)
 
 			path, _ := m["path"].(string)
-			if mm := rePathOther.FindStringSubmatch(path); mm != nil {
-				j.Path = CPath{Name: atoi(mm[1])}
+			if len(path) > 1 && path[0] == '/' && otherID(path[1:]) > 0 {
+				j.Path = CPath{Name: otherID(path[1:])}
 				j.From = j.Path
 			}
 
@@ -331,6 +368,11 @@ func roundtripReplay(args []string) {
 			}
 		}
 
+		if msg := checkCodecInterleaved(patches); msg != "" {
+			fail("patch-codec", msg, nil, nil)
+			return
+		}
+
 		// applying them to the empty document reproduces the document
 		out, aerr := env.composer.ApplyPatches(document.Document{}, patches)
 		if aerr != nil {
@@ -364,6 +406,8 @@ func constructorsReplay(args []string) {
 	col := newCollector("constructors", "")
 	cache := &docCache{m: map[string]*cdocState{}}
 	first := true
+
+	var prevBuilt []patch.Patch
 
 	readTagged(os.Stdin, "EDGE", fl.str("tlclog", ""), func(line []byte) {
 		var ed cedge
@@ -442,6 +486,14 @@ func constructorsReplay(args []string) {
 
 		col.sample(map[string]interface{}{"patches": ed.Patches, "constructed": built})
 
+		// serialize this call's patches together with the previous call's, parse afterwards
+		if msg := checkCodecInterleaved(append(append([]patch.Patch(nil), prevBuilt...), built...)); msg != "" {
+			col.report(mismatch{Kind: "patch-codec", Key: patchListKey("codec-interleaved", ed.Patches), Case: cs, Detail: msg, Replay: rp})
+			return
+		}
+
+		prevBuilt = built
+
 		// the constructed patches apply exactly as the specification says
 		pre := env.stateFor(cache, ed.Path)
 		out, aerr := env.composer.ApplyPatches(pre.doc, built)
@@ -468,8 +520,6 @@ func constructorsReplay(args []string) {
 
 	col.finish()
 }
-
-var rePathOther = regexp.MustCompile(`^/o([0-9]+)$`)
 
 // codecReplay: CASE lines of PatchCodec.tla; which JSON objects FromBytes accepts as a patch.
 func codecReplay(args []string) {
